@@ -222,6 +222,7 @@ pub fn check(problem: &PProblem, solution: &Value, opts: &OracleOptions) -> Vec<
     }
 
     // ---------------- per tour replay: C01 + C03
+    let mut resource_use: HashMap<String, Vec<i64>> = HashMap::new();
     let mut sum = [0f64; 9]; // cost, distance, duration, driving, serving, waiting, break, commuting, parking
     for (ti, tour) in tours.iter().enumerate() {
         let Some(stops) = parsed[ti].as_ref() else { continue };
@@ -241,6 +242,7 @@ pub fn check(problem: &PProblem, solution: &Value, opts: &OracleOptions) -> Vec<
         }
         let findings_before_tour = f.len();
         let mut replay_undefined = false;
+        let mut uses_unreachable_leg = false;
         // first stop: departure from the shift start
         let first = &stops[0];
         if first.loc != Some(shift.start_loc) || first.acts.first().map(|a| a.kind.as_str()) != Some("departure") {
@@ -344,6 +346,7 @@ pub fn check(problem: &PProblem, solution: &Value, opts: &OracleOptions) -> Vec<
                     f.push(Finding::new("C01:unreachable-leg", here(&format!("leg {prev_loc}->{stop_loc} is flagged unreachable"))));
                     // the matrix defines no travel time/distance for this leg: reported numbers cannot be replayed
                     replay_undefined = true;
+                    uses_unreachable_leg = true;
                 }
                 let travel = matrix.dur(prev_loc, stop_loc) * scale;
                 let expected_arrival = prev_departure + travel;
@@ -423,6 +426,13 @@ pub fn check(problem: &PProblem, solution: &Value, opts: &OracleOptions) -> Vec<
                                 // new interval: pickups are unloaded, new deliveries loaded
                                 // dynamic (shipment) load stays on board across a reload
                                 let mut next = static_delivery_of(interval_of_act[si][ai]);
+                                // what is loaded here is drawn from the shared resource of the reload
+                                if let Some(rid) = &r.resource_id {
+                                    let e = resource_use.entry(rid.clone()).or_insert_with(|| vec![0i64; dims]);
+                                    for d in 0..dims.min(e.len()) {
+                                        e[d] += next[d];
+                                    }
+                                }
                                 for d in 0..dims {
                                     next[d] += dynamic_on_board[d];
                                 }
@@ -670,11 +680,32 @@ pub fn check(problem: &PProblem, solution: &Value, opts: &OracleOptions) -> Vec<
             f.push(Finding::new("C03:statistic-split", here(&format!("driving+serving+waiting+break = {parts_sum} != duration {duration}"))));
         }
         if replay_undefined {
-            let tail: Vec<Finding> = f.drain(findings_before_tour..).filter(|x| !x.rule.starts_with("C03:")).collect();
+            // the routing data defines no travel time for the leg: nothing which depends on the clock of this tour can be judged
+            let timing = ["C01:time-window", "C01:shift-end", "C01:break-window", "C01:max-duration", "C01:max-distance"];
+            let tail: Vec<Finding> = f.drain(findings_before_tour..).filter(|x| !x.rule.starts_with("C03:") && !(uses_unreachable_leg && timing.contains(&x.rule.as_str()))).collect();
             f.extend(tail);
         }
         for (i, key) in [["cost"].as_slice(), &["distance"], &["duration"], &["times", "driving"], &["times", "serving"], &["times", "waiting"], &["times", "break"], &["times", "commuting"], &["times", "parking"]].iter().enumerate() {
             sum[i] += num(key).unwrap_or(0.);
+        }
+    }
+    // shared reload resources: what all tours draw from one resource fits its capacity
+    for (id, cap) in &problem.resources {
+        if let Some(used) = resource_use.get(id) {
+            if used.iter().zip(cap.iter()).any(|(u, c)| u > c) {
+                f.push(Finding::new("C01:resource", format!("resource '{id}': {used:?} drawn at its reloads, capacity {cap:?}")));
+            }
+        }
+    }
+    // a relation whose vehicle shift drives no tour at all while one of its jobs is served elsewhere
+    for r in &problem.relations {
+        let shift = r.shift_index.unwrap_or(0);
+        let has_tour = tours.iter().any(|t| t.get("vehicleId").and_then(|x| x.as_str()) == Some(r.vehicle_id.as_str()) && t.get("shiftIndex").and_then(|x| x.as_u64()).unwrap_or(0) as usize == shift);
+        if !has_tour {
+            let elsewhere: Vec<&String> = r.jobs.iter().filter(|j| assigned.contains_key(*j)).collect();
+            if !elsewhere.is_empty() {
+                f.push(Finding::new("C01:relation-vehicle", format!("relation {:?} on '{}' shift {shift}: that shift drives no tour, {elsewhere:?} are served by other tours", r.jobs, r.vehicle_id)));
+            }
         }
     }
     // overall statistic = sum of tours
